@@ -744,7 +744,6 @@ func (c *ctxT) rnewLine(kind string, s xml.StartElement) {
 
 // newCase: NewIQ/… on start elements that did not come from StartElement.
 func (c *ctxT) newCase(rnd *common.Rand) {
-	r := c.r
 	kind := pick(rnd, []string{"iq", "message", "presence"})
 	s := xml.StartElement{Name: xml.Name{Space: pick(rnd, spaces), Local: pick(rnd, []string{kind, kind, "other"})}}
 	n := rnd.Intn(6)
@@ -768,6 +767,12 @@ func (c *ctxT) newCase(rnd *common.Rand) {
 		}
 		s.Attr = append(s.Attr, a)
 	}
+	c.newTok(kind, s)
+}
+
+// newTok: NewIQ/… and the reflection decode on one start element, with the re-parse oracle.
+func (c *ctxT) newTok(kind string, s xml.StartElement) {
+	r := c.r
 	c.rnewLine(kind, s)
 	line := fmt.Sprintf("new %s %s %s", kind, common.EncTok(s), parseTable(s))
 	got, local, err, pan := newOf(kind, xml.CopyToken(s).(xml.StartElement))
@@ -888,9 +893,63 @@ func (c *ctxT) replayLine(l string, rnd *common.Rand) {
 		}
 		return out
 	}
+	dec := func(s string) []xml.Token {
+		if s == "-" {
+			return nil
+		}
+		var out []xml.Token
+		for _, ts := range strings.Split(s, ";") {
+			p := strings.Split(ts, ":")
+			g := func(i int) string {
+				if i < len(p) {
+					return un(p[i])
+				}
+				return ""
+			}
+			switch p[0] {
+			case "S":
+				st := xml.StartElement{Name: xml.Name{Space: g(1), Local: g(2)}}
+				for _, a := range p[min(3, len(p)):] {
+					kv := strings.Split(a, "=")
+					if len(kv) == 3 {
+						st.Attr = append(st.Attr, xml.Attr{Name: xml.Name{Space: un(kv[0]), Local: un(kv[1])}, Value: un(kv[2])})
+					}
+				}
+				out = append(out, st)
+			case "E":
+				out = append(out, xml.EndElement{Name: xml.Name{Space: g(1), Local: g(2)}})
+			case "C":
+				out = append(out, xml.CharData(g(1)))
+			}
+		}
+		return out
+	}
 	switch {
-	case f[1] == "start" && len(f) == 9:
+	case (f[1] == "start" || f[1] == "mstart") && len(f) == 9:
 		c.stanzaCase(stz{f[2], un(f[3]), un(f[4]), un(f[5]), un(f[6]), un(f[7]), un(f[8])}, nil, rnd)
+	case f[1] == "wrap" && len(f) == 10:
+		c.stanzaCase(stz{f[2], un(f[3]), un(f[4]), un(f[5]), un(f[6]), un(f[7]), un(f[8])}, dec(f[9]), rnd)
+	case f[1] == "result" && len(f) == 9:
+		c.stanzaCase(stz{"iq", un(f[2]), un(f[3]), un(f[4]), un(f[5]), un(f[6]), un(f[7])}, dec(f[8]), rnd)
+	case f[1] == "error" && len(f) >= 9:
+		// the error helper of this value; other error values are drawn again from the same seed
+		x := stz{f[2], un(f[3]), un(f[4]), un(f[5]), un(f[6]), un(f[7]), un(f[8])}
+		for i := 0; i < 40; i++ {
+			c.stanzaCase(x, nil, rnd)
+		}
+		if len(f) == 13 {
+			c.errCase(serr{un(f[9]), un(f[10]), un(f[11]), texts(f[12])}, nil, rnd)
+		}
+	case (f[1] == "new" || f[1] == "rnew") && len(f) == 5:
+		if ts := dec(f[3]); len(ts) == 1 {
+			if st, ok := ts[0].(xml.StartElement); ok {
+				c.newTok(f[2], st)
+			}
+		}
+	case f[1] == "sdec" && len(f) == 4:
+		c.sdecLine(dec(f[2]))
+	case f[1] == "stdec" && len(f) == 3:
+		c.stdecLine(dec(f[2]))
 	case f[1] == "serr" && len(f) == 7:
 		c.errCase(serr{un(f[2]), un(f[3]), un(f[4]), texts(f[5])}, nil, rnd)
 	case f[1] == "sterr" && len(f) == 6:
